@@ -52,6 +52,10 @@ def run(tier):
             for layout, eol in (("canon", "\n"), ("shift", "\r\n")):
                 p, root = gen_lines.taillevel_case(ntail, query, random.Random(seed * 77 + ntail))
                 add("taillevel", p, root, layout, eol, random.Random(ntail))
+    for which, bad in itertools.product(["init", "limit", "step"], ["table", "nil", "word", "bool", "func"]):
+        for nbody, (layout, eol) in ((0, ("canon", "\n")), (2, ("shift", "\n")), (4, ("spread", "\r\n"))):
+            p, root = gen_lines.forprep_case(which, bad, nbody, random.Random(seed * 83 + nbody))
+            add("forprep", p, root, layout, eol, random.Random(nbody + 11))
     for ntail in (0, 1, 2):
         for beyond in ("thread", "chunk", "chunk-level"):
             for layout, eol in (("canon", "\n"), ("shift", "\n")):
